@@ -34,7 +34,8 @@ THEOREMS = [P + n for n in [
     "leaf_table_agrees", "un_table_exact", "bin_table_exact", "tern_cond_irrelevant", "tern_table_exact", "nary_table_ok", "tables_ok",
     "depth1_exact_un", "depth1_exact_bin", "depth1_exact_tern", "every_family_inhabited",
     "rel_sound", "class_agrees", "final_class_agrees", "int_never_narrower",
-    "column_takes_schema_type", "unqualified_column_witness", "byArgs_single", "wrapper_keeps_type",
+    "column_takes_schema_type", "unqualified_column_witness", "derived_column_takes_projection_type", "class_agrees_through_derived",
+    "cache_keys_ok", "scope_cache_transparent", "name_only_cache_key_witness", "byArgs_single", "wrapper_keeps_type",
     "nullif_witness", "nullif_first_arg_agrees",
     "null_only_arith_disagrees_witness", "decimal_null_arith_disagrees_witness", "strlit_null_arith_disagrees_witness",
     "concat_null_disagrees_witness", "date_interval_disagrees_witness", "temporal_diff_disagrees_witness",
@@ -117,6 +118,8 @@ def render(e) -> str:
         return "t." + e[1]
     if k == "colx":  # ["colx", qualifier, name]: unqualified / other-table / unknown column references
         return (e[1] + "." if e[1] else "") + e[2]
+    if k == "dcol":  # ["dcol", alias, name]: a column of a derived table / CTE of the scope
+        return e[1] + "." + e[2]
     if k == "int":
         return "1"
     if k == "bigLit":
@@ -156,6 +159,8 @@ def to_model(e):
         return ["col", "this", e[1]]
     if k == "colx":
         return ["col", {"": "none", "t": "this"}.get(e[1], "other"), e[2].lower()]
+    if k == "dcol":
+        return ["col", "d:" + e[1], e[2]]
     if k == "bigLit":
         return ["int"]
     if k in ("un", "bin", "tern", "nary"):
@@ -571,6 +576,66 @@ def _co_variants(dtype_name):
     return out
 
 
+def cache_inventory(chk: Check):
+    """the per-call caches of TypeAnnotator (dict / set attributes created in __init__) and, for each, whether EVERY key expression
+    used with it (subscript, .get/.pop/.add/.discard, `in`) mentions a Scope-typed name — read from the ast of
+    sqlglot/optimizer/annotate_types.py, resolving a plain local name to its assignment in the same function"""
+    import ast
+
+    src = open(os.path.join(REPO, "sqlglot", "optimizer", "annotate_types.py"), encoding="utf-8").read()
+    tree = ast.parse(src)
+    cls = next((n for n in tree.body if isinstance(n, ast.ClassDef) and n.name == "TypeAnnotator"), None)
+    if cls is None:
+        chk.broken.append({"kind": "translator", "what": "C16 translator: structure changed: class TypeAnnotator not found"})
+        return []
+    caches = []
+    for fn in cls.body:
+        if isinstance(fn, ast.FunctionDef) and fn.name == "__init__":
+            for st in ast.walk(fn):
+                tgt = val = None
+                if isinstance(st, ast.AnnAssign):
+                    tgt, val = st.target, st.value
+                elif isinstance(st, ast.Assign) and len(st.targets) == 1:
+                    tgt, val = st.targets[0], st.value
+                if (isinstance(tgt, ast.Attribute) and isinstance(tgt.value, ast.Name) and tgt.value.id == "self"
+                        and (isinstance(val, (ast.Dict, ast.Set)) and not getattr(val, "keys", getattr(val, "elts", []))
+                             or isinstance(val, ast.Call) and isinstance(val.func, ast.Name) and val.func.id in ("set", "dict") and not val.args)):
+                    caches.append(tgt.attr)
+    uses = {c: [] for c in caches}
+    for fn in [n for n in cls.body if isinstance(n, ast.FunctionDef)]:
+        scope_names = {a.arg for a in fn.args.args + fn.args.kwonlyargs
+                       if a.annotation is not None and "Scope" in ast.unparse(a.annotation)}
+        local = {}
+        for st in ast.walk(fn):
+            if isinstance(st, ast.Assign) and len(st.targets) == 1 and isinstance(st.targets[0], ast.Name):
+                local.setdefault(st.targets[0].id, []).append(st.value)
+
+        def mentions_scope(key, depth=0):
+            for n in ast.walk(key):
+                if isinstance(n, ast.Name):
+                    if n.id in scope_names:
+                        return True
+                    if depth < 2 and n.id in local and len(local[n.id]) == 1 and mentions_scope(local[n.id][0], depth + 1):
+                        return True
+            return False
+
+        def is_cache(node):
+            return (isinstance(node, ast.Attribute) and isinstance(node.value, ast.Name) and node.value.id == "self"
+                    and node.attr in uses)
+
+        for n in ast.walk(fn):
+            if isinstance(n, ast.Subscript) and is_cache(n.value):
+                uses[n.value.attr].append((fn.name, ast.unparse(n.slice), mentions_scope(n.slice)))
+            elif (isinstance(n, ast.Call) and isinstance(n.func, ast.Attribute) and is_cache(n.func.value)
+                  and n.func.attr in ("get", "pop", "add", "discard", "setdefault") and n.args):
+                uses[n.func.value.attr].append((fn.name, ast.unparse(n.args[0]), mentions_scope(n.args[0])))
+            elif isinstance(n, ast.Compare) and len(n.ops) == 1 and isinstance(n.ops[0], (ast.In, ast.NotIn)) and is_cache(n.comparators[0]):
+                uses[n.comparators[0].attr].append((fn.name, ast.unparse(n.left), mentions_scope(n.left)))
+    inv = [(c, bool(uses[c]) and all(u[2] for u in uses[c])) for c in caches]
+    chk.cov["annotator_caches"] = {c: {"keys": sorted({u[1] for u in uses[c]}), "every_key_mentions_scope": dict(inv)[c]} for c in caches}
+    return inv
+
+
 def translate(chk: Check, table) -> str:
     S = sg()
     exp = S["exp"]
@@ -700,6 +765,14 @@ def translate(chk: Check, table) -> str:
         seen.add(mty)
         w(f"  | .{mty} => .{ety_of_duck(duck_typeof('t.' + c))}")
     w("  | _ => .error")
+    w("")
+    inv = cache_inventory(chk)
+    w("/-- the per-call caches of TypeAnnotator (ast of annotate_types.py): (attribute, every key expression mentions a Scope) -/")
+    w("def cacheInventory : List (String × Bool) :=")
+    w("  [" + ", ".join(f'("{c}", {"true" if b else "false"})' for c, b in inv) + "]")
+    w("")
+    w("/-- the key of `_scope_source_selects` contains the scope -/")
+    w(f"def scopeCacheKeyHasScope : Bool := {'true' if dict(inv).get('_scope_source_selects') else 'false'}")
     w("")
     w("def tables : Tables where")
     w("  coercesTo := coercesTo")
@@ -1096,6 +1169,56 @@ def decimal_grid(chk: Check):
     return cases
 
 
+def derived_cases(chk: Check, n: int):
+    """statements `SELECT <outer> AS x0 FROM (SELECT <inner_c> AS c, ... FROM t) AS s`: every base column c is re-projected under its
+    own name through an inner expression (mostly of its class; sometimes a literal or NULL), the outer expression reads only s.*"""
+    rng = chk.rng
+
+    def to_derived(e):
+        if e[0] == "col":
+            return ["dcol", "s", e[1]]
+        if is_leaf(e):
+            return e
+        return e[:2] + [to_derived(x) for x in e[2:]]
+
+    out = []
+    for _ in range(n):
+        projs = []
+        for c in COLS:
+            r = rng.random()
+            if r < 0.45:
+                inner = ["col", c]
+            elif r < 0.9:
+                want = {"nullUnknown": "any"}.get(CLASS_OF[COLS[c][1]], CLASS_OF[COLS[c][1]])
+                inner = gen_expr(rng, rng.choice([1, 2]), want, "none")
+                if not (operands_ok(inner) and parses_back(inner)):
+                    inner = ["col", c]
+            else:
+                inner = list(rng.choice([["null"], ["str", "other"], ["int"], ["dec"], ["bool"]]))
+            projs.append((c, inner))
+        outers = []
+        while len(outers) < 4:
+            e = gen_expr(rng, rng.choice([0, 1, 2, 3]), None, rng.choice(["none", "none", "window"]))
+            if operands_ok(e) and parses_back(e):
+                outers.append(to_derived(e))
+        out.append((projs, outers))
+    return out
+
+
+def evaluate_stmt(sql: str):
+    """first projection of a whole statement: (sqlglot type name, parameterised?, DuckDB typeof through a wrapping subquery)"""
+    S = sg()
+    ast = S["sqlglot"].parse_one(sql, dialect="duckdb")
+    ty = S["annotate_types"](ast, schema=S["schema"], dialect="duckdb").selects[0].type
+    name = ty.this.name if ty is not None and hasattr(ty.this, "name") else "NONE"
+    try:
+        row = duck().execute(f"SELECT typeof(x0) FROM ({sql}) LIMIT 1").fetchone()
+        d = row[0] if row else "ERR empty"
+    except Exception as ex:  # noqa
+        d = "ERR " + type(ex).__name__
+    return name, bool(ty is not None and ty.expressions), d
+
+
 def correspond(chk: Check, depth1: list) -> list:
     """model vs implementation: (a) `annotFinal` vs the real annotate_types root type, (b) `eng` vs the real DuckDB typeof
     (compositionality of A-duck on nested expressions). Returns the disagreeing expressions (search hints)."""
@@ -1109,6 +1232,11 @@ def correspond(chk: Check, depth1: list) -> list:
     dec_cases = decimal_grid(chk)
     lines = [schema_line] + [json.dumps(to_model(e)) for e in exprs] + [json.dumps({"census": True})] + \
         [json.dumps({"dec": [op == "/", p1, s1, p2, s2]}) for op, p1, s1, p2, s2, _ in dec_cases]
+    dcases = derived_cases(chk, chk.pick(40, 600))
+    n_fixed = len(lines)
+    for projs, outers in dcases:
+        lines.append(json.dumps({"derive": [["s", [[c, to_model(inner)] for c, inner in projs]]]}))
+        lines += [json.dumps(to_model(o)) for o in outers]
     out = chk.driver("C16", lines)
     if out[0] != "ok":
         raise HarnessError(f"driver rejected the schema: {out[0]!r}")
@@ -1121,7 +1249,45 @@ def correspond(chk: Check, depth1: list) -> list:
         **census,
         "totals": {"accepted": sum(census[a]["accepted"] for a in census), "proved_agree": sum(census[a].get("agree", 0) for a in census),
                    "proved_disagree": sum(census[a]["accepted"] - census[a].get("agree", 0) for a in census), "unknown": 0}}
-    dec_out = out[2 + len(exprs):]
+    dec_out = out[2 + len(exprs):n_fixed]
+    # --- columns reaching the expression through a derived table (model: deriveScope + annotCol .derived)
+    pos = n_fixed
+    d_n = d_acc = d_wf = 0
+    for projs, outers in dcases:
+        if out[pos] != "ok":
+            raise HarnessError(f"driver rejected a derive line: {out[pos]!r}")
+        pos += 1
+        inner_sql = ", ".join(f"{render(inner)} AS {c}" for c, inner in projs)
+        for o in outers:
+            g = out[pos]
+            pos += 1
+            parts = g.split(" ")
+            if len(parts) != 4:
+                raise HarnessError(f"driver answered {g!r} for a derived-scope expression")
+            sql = f"SELECT {render(o)} AS x0 FROM (SELECT {inner_sql} FROM t) AS s"
+            try:
+                name, param, d = evaluate_stmt(sql)
+            except Exception as ex:  # noqa
+                name, param, d = "EXC:" + type(ex).__name__, False, "ERR"
+            d_n += 1
+            chk.case(("derived", sql), nontrivial=True)
+            if model_ty_of_sg(name, param) != parts[1]:
+                chk.correspondence_broken("annotate_types of an expression over a derived table vs Model/Types.lean (deriveScope, annotCol)",
+                                          {"sql": sql, "impl": name + ("(p,s)" if param else ""), "model": parts[1]})
+            if not d.startswith("ERR") and parts[2] != "error":
+                d_acc += 1
+                real_ety, m_cmp = ety_of_duck(d), ("text" if parts[2] == "strlit" else parts[2])
+                if real_ety == "double" and m_cmp == "decimal":
+                    m_cmp = real_ety
+                if real_ety != m_cmp:
+                    chk.correspondence_broken("assumption A-duck over a derived table (column type of a projection = resolveCol of its class)",
+                                              {"sql": sql, "duckdb": d, "model_eng": parts[2]})
+                elif parts[3] == "true":
+                    d_wf += 1
+                    if model_ty_of_sg(name, param) == parts[1] and class_of_sg(name) != CLASS_OF_ETY.get(real_ety, "other") and real_ety != "other":
+                        raise HarnessError(f"well-formed derived-scope expression disagrees although both sides correspond: {sql}")
+    chk.cov["derived_scope_correspondence"] = {"statements": d_n, "accepted_and_compared": d_acc, "well_formed": d_wf}
+    chk.corr_cases += d_n
     for (op, p1, s1, p2, s2, real), m in zip(dec_cases, dec_out):
         if real != m:
             chk.correspondence_broken("DECIMAL parameters annotated on an arithmetic result vs Model/Types.lean sgDecArith",
@@ -1197,6 +1363,7 @@ def search(chk: Check, depth1: list, hints: list, budget_s: float) -> None:
         one(e, "witness/hint")
     for e in nary_probe_exprs():
         one(e, "n-ary probes")
+    query_stream(chk)
     sweep(chk)
     for e in d1:
         one(e, "depth-1 exhaustive over representatives")
@@ -1206,7 +1373,8 @@ def search(chk: Check, depth1: list, hints: list, budget_s: float) -> None:
         for e in random_exprs(chk, 50):
             one(e, "random nested")
     chk.search_info = {"ran": True, "budget_s": budget_s, "expressions": tried, "engine_rejected": skipped, "disagreeing": found,
-                       "streams": "witnesses, metadata sweep (every Binary/Unary/Func entry of the duckdb EXPRESSION_METADATA, 1-3 scalar args), "
+                       "streams": "witnesses, n-ary probes, query-level scopes (same alias / column name with different types in sibling and "
+                                  "nested scopes, CTEs, set operations, 1-3 aliasing levels), metadata sweep (every Binary/Unary/Func entry of the duckdb EXPRESSION_METADATA, 1-3 scalar args), "
                                   "depth-1 exhaustive over the modelled operators, random nested",
                        "oracle": "class(annotate_types root type) == class(DuckDB typeof) for every expression DuckDB accepts; "
                                  ".sql() unchanged by annotation"}
@@ -1350,6 +1518,129 @@ def sweep(chk: Check) -> None:
     chk.cov["sweep"].update({"distinct_sql": len(seen), "accepted_by_duckdb_in_a_property_class": accepted, "disagreeing": found})
 
 
+
+# ------------------------------------------------------------------------------------------ the query-level stream (scopes)
+QCOLS = ["bo", "ti", "i", "bi", "db", "de", "v", "da", "ts"]
+
+
+def _outer_exprs(ref, col):
+    """outer-scope expressions over the column reference `ref` whose type is column `col`'s: chosen inside the agreeing
+    (WellFormed) operator/class combinations, so a mismatch is about how the column's type travelled through the scopes"""
+    cls = CLASS_OF[COLS[col][1]]
+    out = [ref, f"COALESCE({ref}, {ref})", f"CASE WHEN {ref} IS NULL THEN {ref} ELSE {ref} END"]
+    if cls in ("integer", "decimal"):
+        out += [f"{ref} + 1", f"{ref} * 2", f"-{ref}", f"SUM({ref}) OVER ()"]
+    if cls == "text":
+        out += [f"UPPER({ref})", f"{ref} || 'x'"]
+    if cls in ("date", "timestamp"):
+        out += [f"YEAR({ref})", f"{ref} < {ref}"]
+    return out
+
+
+def query_statements(chk: Check):
+    """statements with nested / sibling scopes in which the SAME alias and the SAME column name recur with DIFFERENT types
+    (derived tables, CTEs, scalar subqueries, set operations, 1-3 levels of aliasing); every outer projection is compared with
+    DuckDB. Yields (template name, (type tags), sql) over all ordered pairs of column types."""
+    rng = chk.rng
+    pairs = [(a, b) for a in QCOLS for b in QCOLS if a != b]
+    for a, b in pairs:
+        ea, eb = rng.choice(_outer_exprs("s.c", a)), rng.choice(_outer_exprs("s.c", b))
+        # sibling scalar subqueries, both FROM (...) AS s
+        yield "sibling-scalar-subqueries", (a, b), (
+            f"SELECT (SELECT {ea} FROM (SELECT t.{a} AS c FROM t) AS s) AS c0, (SELECT {eb} FROM (SELECT t.{b} AS c FROM t) AS s) AS c1 FROM t")
+        # nested: the outer scope and a scalar subquery inside it both name their derived table s
+        yield "outer-and-nested-subquery", (a, b), (
+            f"SELECT {ea} AS c0, (SELECT {eb} FROM (SELECT t.{b} AS c FROM t) AS s) AS c1, s.c AS c2 FROM (SELECT t.{a} AS c FROM t) AS s")
+        # sibling derived tables q1, q2, each reading its own inner derived table s
+        yield "sibling-derived-tables", (a, b), (
+            f"SELECT q1.x AS c0, q2.x AS c1 FROM (SELECT {ea} AS x FROM (SELECT t.{a} AS c FROM t) AS s) AS q1 "
+            f"CROSS JOIN (SELECT {eb} AS x FROM (SELECT t.{b} AS c FROM t) AS s) AS q2")
+        # CTE s at the top, shadowed by a CTE s inside a derived table
+        yield "cte-shadowed-in-derived", (a, b), (
+            f"WITH s AS (SELECT t.{a} AS c FROM t) SELECT {ea} AS c0, q.x AS c1 FROM s "
+            f"CROSS JOIN (WITH s AS (SELECT t.{b} AS c FROM t) SELECT {eb} AS x FROM s) AS q")
+        # two CTEs with different names but the same inner alias
+        yield "ctes-with-same-inner-alias", (a, b), (
+            f"WITH p AS (SELECT {ea} AS x FROM (SELECT t.{a} AS c FROM t) AS s), r AS (SELECT {eb} AS x FROM (SELECT t.{b} AS c FROM t) AS s) "
+            f"SELECT p.x AS c0, r.x AS c1 FROM p CROSS JOIN r")
+        # one derived table with two differently typed projections, read in the other order
+        yield "two-projections", (a, b), (
+            f"SELECT s.q AS c0, s.p AS c1, COALESCE(s.q, s.q) AS c2 FROM (SELECT t.{a} AS p, t.{b} AS q FROM t) AS s")
+        # set operation whose branches read same-named derived tables
+        yield "union-branches-same-alias", (a, b), (
+            f"SELECT u.k AS c0, u.x AS c1 FROM (SELECT 1 AS k, CAST({ea} AS VARCHAR) AS x FROM (SELECT t.{a} AS c FROM t) AS s UNION ALL "
+            f"SELECT 2 AS k, CAST({eb} AS VARCHAR) AS x FROM (SELECT t.{b} AS c FROM t) AS s) AS u")
+    # 1-3 levels of aliasing, every column type
+    for a in QCOLS:
+        for ea in _outer_exprs("s3.c", a):
+            yield "three-levels-of-aliasing", (a,), (
+                f"SELECT {ea} AS c0, s3.d AS c1 FROM (SELECT s2.c AS c, s2.c AS d FROM (SELECT s1.c AS c FROM (SELECT t.{a} AS c FROM t) AS s1) AS s2) AS s3")
+        yield "cte-chain", (a,), (
+            f"WITH s1 AS (SELECT t.{a} AS c FROM t), s2 AS (SELECT s1.c AS c FROM s1) SELECT s2.c AS c0, COALESCE(s2.c, s2.c) AS c1 FROM s2")
+    # set operations inside one chain
+    for a, b in [("ti", "bi"), ("i", "db"), ("bi", "ti"), ("db", "i"), ("v", "v"), ("da", "da")]:
+        yield "union-coerces-within-chain", (a, b), (
+            f"SELECT u.c AS c0, COALESCE(u.c, u.c) AS c1 FROM (SELECT t.{a} AS c FROM t UNION ALL SELECT t.{b} AS c FROM t) AS u")
+
+
+def query_verdicts(sql):
+    """[(projection index, projection sql, sqlglot type name, DuckDB type, verdict)] for every projection of the outer query"""
+    S = sg()
+    ast = S["sqlglot"].parse_one(sql, dialect="duckdb")
+    before = ast.sql(dialect="duckdb")
+    out = S["annotate_types"](ast, schema=S["schema"], dialect="duckdb")
+    same = out.sql(dialect="duckdb") == before
+    n = len(out.selects)
+    try:
+        row = duck().execute("SELECT " + ", ".join(f"typeof(c{i})" for i in range(n)) + f" FROM ({sql}) LIMIT 1").fetchone()
+    except Exception as ex:  # noqa
+        return [(-1, sql, "", "ERR " + type(ex).__name__, None)], same
+    res = []
+    for i, sel in enumerate(out.selects):
+        ty = sel.type
+        name = ty.this.name if ty is not None and hasattr(ty.this, "name") else "NONE"
+        d = row[i] if row else "ERR empty"
+        ety = ety_of_duck(d)
+        v = None
+        if ety not in ("error", "other"):
+            g, dc = class_of_sg(name), CLASS_OF_ETY[ety]
+            if g != dc:
+                v = ("class", g, dc)
+        res.append((i, sel.sql(dialect="duckdb"), name, d, v))
+    return res, same
+
+
+def query_stream(chk: Check) -> None:
+    n = rejected = found = 0
+    for tmpl, tags, sql in query_statements(chk):
+        if len(chk.violations) >= 8:
+            break
+        n += 1
+        try:
+            res, same = query_verdicts(sql)
+        except Exception as ex:  # noqa
+            chk.report_violation(f"query-raised:{tmpl}", f"annotate_types raised {type(ex).__name__} on `{sql}`",
+                                 {"query": sql, "template": tmpl}, context={"engine": "duckdb"})
+            continue
+        if res and res[0][0] == -1:
+            rejected += 1
+            chk.count("query:engine-rejects")
+            continue
+        chk.case(("query", sql), nontrivial=True)
+        chk.count("query:" + tmpl)
+        if not same:
+            chk.report_violation(f"query-sql-changed:{tmpl}", f"annotate_types changed the SQL generated for `{sql}`",
+                                 {"query": sql, "template": tmpl}, context={"engine": "duckdb"})
+        for i, psql, name, d, v in res:
+            if v:
+                found += 1
+                tag = ",".join(CLASS_OF[COLS[c][1]] for c in tags)
+                chk.report_violation(f"query:{tmpl}({tag})|c{i}|sg={v[1]}|duck={v[2]}",
+                                     f"projection c{i} `{psql}` of `{sql}`: annotate_types infers {name} ({v[1]}) but DuckDB reports {d} ({v[2]})",
+                                     {"query": sql, "template": tmpl, "projection": i}, context={"engine": "duckdb"})
+    chk.cov["query_stream"] = {"statements": n, "engine_rejected": rejected, "disagreeing_projections": found}
+
+
 # ------------------------------------------------------------------------------------------ entry points
 def run(chk: Check) -> None:
     chk.trusted.append("C16: hand-written model Model/Types.lean of TypeAnnotator._maybe_coerce/_annotate_by_args/_annotate_binary/"
@@ -1392,6 +1683,13 @@ def replay(path: str) -> int:
     if not r:
         print(json.dumps(rec, indent=1))
         return 1
+    if "query" in r:
+        res, same = query_verdicts(r["query"])
+        bad = [x for x in res if x[4]]
+        for i, psql, name, d, v in res:
+            print(f"replay: projection c{i} `{psql}`: annotate_types -> {name}, DuckDB typeof -> {d}")
+        print("replay:", f"VIOLATES: {[(x[0], x[4]) for x in bad]}" if bad or not same else "holds")
+        return 1 if bad or not same else 0
     if "expr" not in r:
         ev = evaluate_sql(r["sql"])
         v = verdict_of(ev)
